@@ -190,7 +190,9 @@ class RGSpace(StructuredDomain):
         op = HarmonicTransformOperator(self, self.get_default_codomain())
         dist = op.target[0]._get_dist_array()
         kernel = Field(op.target, func(dist.asnumpy()))
-        kernel = kernel / kernel.s_integrate()
+        # normalize the kernel such that its integral is the total volume of
+        # the position space (same convention as LMSpace: 4*pi on the sphere)
+        kernel = kernel * (op.target[0].total_volume / kernel.s_integrate())
         return op.adjoint_times(kernel.weight(1))
 
     def get_default_codomain(self):
